@@ -1,3 +1,8 @@
--- This module serves as the root of the `StarModel` library.
--- Import modules here that should be built as part of the library.
-import StarModel.Basic
+import StarModel.Bytes
+import StarModel.Params
+import StarModel.Keccak
+import StarModel.Strobe
+import StarModel.Fp
+import StarModel.Sharks
+import StarModel.Adss
+import StarModel.Star
